@@ -222,6 +222,8 @@ def check_fe64(ctx, P, cfg="K0", rule="fe-bounds"):
     ctx.check(stable and not bad, rule, "fe64:closed", "every producer maps limbs within B = %s to limbs within B (fixpoint after %d rounds over %d producers); under B no overflow assert fires and no narrowing loses bits" % (show(B), it + 1, len(ops)),
               "fe64 limb bounds are not a closed invariant: %s; bound vector reached %s; %s" % (why or ("stable" if stable else "no fixpoint within %d rounds (an operation lets limbs grow without a carry)" % MAXIT), show(B), "; ".join(bad[:4])),
               where=P.fn(prod[0][0]).where(), key="%s:fe64:closed" % rule)
+    if stable and not bad:
+        ctx.guard("encode", "fe64::to_packed", lambda: check_to_bytes(ctx, P, "fe64", cfg, B))
     return B
 
 
@@ -312,4 +314,147 @@ def check_fe32(ctx, P, cfg="K2", rule="fe-bounds"):
     ctx.check(stable and not bad, rule, "fe32:contracts", "TIGHT = %s is closed under every multiplying operation applied to LOOSE = %s inputs (add/sub/neg of TIGHT); no overflow assert fires, no i64 -> i32 narrowing loses bits (fixpoint after %d rounds)" % (show(T), show(L), it + 1),
               "fe32 limb bounds do not satisfy the tight/loose contracts: %s; TIGHT reached %s; %s" % ("stable" if stable else "no fixpoint (a multiplying operation returns limbs that are not carried)", show(T), "; ".join(bad[:4])),
               where=P.fn(mulops[0][0]).where(), key="%s:fe32:contracts" % rule)
+    if stable and not bad:
+        ctx.guard("encode", "fe32::to_bytes", lambda: check_to_bytes(ctx, P, "fe32", cfg, L))
     return T, L
+
+
+# --------------------------------------------------------------------------------------------------------- canonical encoding
+def check_to_bytes(ctx, P, backend, cfg, B=None, rule="encode"):
+    """Fe::to_bytes / to_packed: the canonical-reduction code, as far as its truth is in the shape of the arithmetic:
+
+      identity   sum(out_digit_i 2^w_i) == H - p * (sum of the quotient symbols that are folded back with factor 19)
+                 + 2^255 * (integer combination of the top-carry symbols)  as a polynomial identity over the input limbs:
+                 every carry moves to the next digit, the top carry comes back times 19, the +19 / 2^255-19 constants of the
+                 conditional subtraction are the right ones
+      digits     under the input bounds of the backend every output digit is reduced where it is packed with
+                 `(d_i >> a) | (d_j << b)`, and no overflow assert can fire
+      bits       the output bytes / words are the consecutive bit-fields of those digits
+    Not decided: that the quotient the code folds back is floor(H / p) for every input (ref10's magnitude argument)."""
+    from .. import limbpoly, termbits, intern
+    from ..poly import Poly
+    from ..spec import curve
+    PMOD = (1 << 255) - 19
+    path = "curve25519::fe::%s::Fe::%s" % (backend, "to_packed" if backend == "fe64" else "to_bytes")
+    fn = P.fn(path)
+    inl = (lambda n: n.endswith("carry_full") or n.endswith("carry_final")) if backend == "fe64" else (lambda n: False)
+    r = ssa.Eval(P, fn, inline=inl, maxdepth=3).run()
+    intern.Interner().canon_result(r)
+    ret = r.ret
+    if not isinstance(ret, ssa.Agg):
+        ctx.fail(rule, path, "cannot see the output words", where=fn.where(), key="%s:%s" % (rule, path))
+        return
+    nl = 5 if backend == "fe64" else 10
+    W = [51 * i for i in range(5)] if backend == "fe64" else list(curve.FE32_SHIFTS)
+    widths = [51] * 5 if backend == "fe64" else [26, 25] * 5
+    outw = 64 if backend == "fe64" else 8
+    nout = 4 if backend == "fe64" else 32
+    outs = [ret.get_elem(i) for i in range(nout)]
+
+    def strip(t):
+        while isinstance(t, tuple) and t and t[0] == "cast":
+            t = t[1]
+        return t
+    finals = []
+    dterms = []
+    for k, ob in enumerate(outs):
+        e = strip(ob)
+        parts = [strip(e[2]), strip(e[3])] if (e[0] == "bin" and e[1] == "BitOr") else [e]
+        for pt in parts:
+            if pt[0] == "bin" and pt[1] in ("Shr", "Shl") and ssa.is_c(pt[3]):
+                base, sh = strip(pt[2]), (pt[3][1] if pt[1] == "Shr" else -pt[3][1])
+            else:
+                base, sh = pt, 0
+            finals.append((k, base, sh))
+            if base not in dterms:
+                dterms.append(base)
+    enc_bad = []
+    if len(dterms) == nl:
+        for k, base, sh in finals:
+            i = dterms.index(base)
+            if sh != outw * k - W[i]:
+                enc_bad.append((k, i, sh))
+    ctx.check(len(dterms) == nl and not enc_bad, rule, path + ":bits", "output %s k = bits [%dk, %dk+%d) of sum(d_i 2^w_i) over the %d final digits" % ("word" if outw == 64 else "byte", outw, outw, outw, nl),
+              "%s does not pack its %d final digits into consecutive output bits: %d digit terms, misplaced (word, digit, shift) %s" % (path, nl, len(dterms), enc_bad[:4]), where=fn.where(), key="%s:%s:bits" % (rule, path))
+    if len(dterms) != nl or enc_bad:
+        return
+    # ---- identity
+    names = {"arg1": "f"}
+
+    def leaf(t):
+        if t[0] == "load":
+            m = re.match(r"^arg1\.0\[(\d+)\]$", t[1])
+            if m:
+                return "f_%s" % m.group(1)
+        if t[0] == "elem" and isinstance(t[1], tuple) and t[1] and t[1][0] == "load" and t[1][1] == "arg1.0" and isinstance(t[2], int):
+            return "f_%d" % t[2]
+        return None
+    LP = limbpoly.LimbPoly(leaf)
+    tot = Poly()
+    for i, t in enumerate(dterms):
+        tot = tot + LP.val(t) * (1 << W[i])
+    H = Poly()
+    for i in range(nl):
+        H = H + Poly.var("f_%d" % i) * (1 << W[i])
+    diff = tot - H
+    # admissible residue: integer combination of quotient symbols with coefficients that are multiples of p or of 2^255,
+    # plus a constant that is a multiple of 2^255 — i.e. the residue vanishes modulo p up to 2^255 * (top-carry terms)
+    bad_terms = []
+    for mon, c in diff.items():
+        if not mon:
+            if c % (1 << 255) not in (0,) and c % PMOD != 0:
+                bad_terms.append(("const", c))
+            continue
+        if len(mon) != 1 or mon[0][1] != 1 or not mon[0][0].startswith("Q"):
+            bad_terms.append((mon, c))
+            continue
+        if c % PMOD != 0 and c % (1 << 255) != 0:
+            bad_terms.append((mon[0][0], c))
+    qchain_ok = True
+    if backend == "fe32":
+        # ref10 form: the quotient q is folded in as +19 q and the top carry is dropped: residue 19*Q_q - 2^255*Q_c9, which
+        # vanishes modulo p exactly when q == carry9 (ref10's magnitude argument, not decided here).  Decided: the two
+        # symbols are the only residue, and q is the carry-out of the limb chain started at (19*h9 + 2^24) >> 25.
+        res19 = [(a, b) for a, b in bad_terms if b == 19]
+        bad_terms = [(a, b) for a, b in bad_terms if b != 19]
+        top = [mon[0][0] for mon, c in diff.items() if mon and c == -(1 << 255)]
+        qchain_ok = len(res19) == 1 and len(top) == 1
+        if qchain_ok:
+            inv = {v: k for k, v in LP.qnames.items()}
+            x, k = inv[res19[0][0]]
+            for i in range(nl - 1, -1, -1):
+                prev = None
+                v = LP.val(x)
+                want_k = widths[i]
+                qs = [mon[0][0] for mon, c in v.items() if mon and mon[0][0].startswith("Q") and c == 1]
+                rest = Poly({mon: c for mon, c in v.items() if not (mon and mon[0][0].startswith("Q"))})
+                if k != want_k or len(qs) != 1 or rest != Poly.var("f_%d" % i):
+                    qchain_ok = False
+                    break
+                inv = {v_: k_ for k_, v_ in LP.qnames.items()}
+                x, k = inv[qs[0]]
+            if qchain_ok:
+                qchain_ok = k == 25 and LP.val(x) == Poly.var("f_9") * 19 + Poly.const(1 << 24)
+        if not qchain_ok:
+            bad_terms.append(("q-chain", 0))
+    nq_p = sum(1 for mon, c in diff.items() if mon and c % PMOD == 0) + (1 if backend == "fe32" and qchain_ok else 0)
+    nq_t = sum(1 for mon, c in diff.items() if mon and c % PMOD != 0 and c % (1 << 255) == 0)
+    ctx.check(not bad_terms and not LP.unknown and nq_p >= 1 and nq_t >= 1, rule, path + ":identity", "sum(d_i 2^w_i) == H - p*(%d folded quotients) + 2^255*(%d top-carry terms): %d carry symbols cancel" % (nq_p, nq_t, len(LP.qnames) - nq_p - nq_t),
+              "%s does not reduce its input modulo 2^255-19: after removing H the digits carry a residue that is neither a multiple of p nor of 2^255: %s%s" % (path, [(str(a)[:40], (b if abs(b) < (1 << 40) else "~2^%d" % b.bit_length())) for a, b in bad_terms[:4]], ("; unrecognised operation %s" % str(LP.unknown[0])[:80]) if LP.unknown else ""), where=fn.where(), key="%s:%s:identity" % (rule, path))
+    # ---- digits reduced, no overflow
+    if B is None:
+        return
+    lf = fe_leaf({"arg1": B})
+    nparts = 0
+    bad = []
+    afail = []
+    for ev in bounds.partitions(dterms, lf, maxsplits=0):
+        nparts += 1
+        for i, t in enumerate(dterms):
+            v = ev.iv(t)
+            if v[0] < 0 or v[1] >= (1 << widths[i]):
+                bad.append((i, v))
+        afail += bounds.assert_failures(r, ev)
+    ctx.check(nparts >= 1 and not bad and not afail, rule, path + ":digits", "every output digit d_i is within [0, 2^w_i) under the backend's input bounds; no overflow assert can fire",
+              "%s: output digits are not reduced where they are packed (a final carry step is missing or uses the wrong width), or an operation can overflow: %s; undischarged %s" % (path, [(i, bounds.fmt_iv(v)) for i, v in bad[:4]], [(f[1], bounds.fmt_iv(f[2]) if f[2] else None) for f in afail[:3]]),
+              where=fn.where(), key="%s:%s:digits" % (rule, path))
